@@ -385,4 +385,27 @@ CHECKS["C15"] = {
     "level_note": "Trusted: the fault-free run of the same program as the reference.",
 }
 
+CHECKS["C19"] = {
+    "title": "Operator resolution picks the unique most specific match, consistently",
+    "level": "exploration",
+    "technique": "exhaustive enumeration of overload families x every registration order x every argument tuple against the real OperatorRegistry, "
+                 "with an independent reference unifier; differential across registration orders",
+    "design_ref": "DESIGN.md 2/C19",
+    "parts": [{"name": "resolve", "exe": "c19_resolve", "sources": ["c19_resolve.cpp"], "shards": 16}],
+    "rule": "candidates are built at run time as erased OperatorImpl records from a mini-AST: 13 one-parameter patterns (TS<Int>, TS<Float>, TS<T>, "
+            "TS<U>, two whole-time-series variables, TSL<TS<Int>,2>, TSL<TS<T>,N>, TSL<S,N>, TSS<T>, TSD<K,V>, TSD<Int,V>, SIGNAL) and 9 two-parameter "
+            "ones ((Int,Int), (T,T), (T,U), (S,S), (S,R), (Int,T), (TSL<T,N>,TSL<T,N>), (TSL<T,N>,TSL<T,M>), (Int,Float)), each with an output pattern; "
+            "arguments from 11 concrete types (TS<Int|Float|Str>, TSL of sizes 2/3/dynamic, TSS, two TSDs, SIGNAL). Every family of 1..K candidates "
+            "x EVERY registration order x every argument tuple (registry reset between). Oracle: identical outcome for all orders; no candidate "
+            "matches (reference unifier) <=> resolution error; winner matches; every variable of the winner bound to the one type the arguments "
+            "require; resolved output type == substitution of the bindings; winner has the strictly lowest rank among matching candidates and a "
+            "tie at the best rank is an ambiguity error; the winner is never strictly behind another matching candidate in the documented order "
+            "(concrete < scalar variable < time-series variable, recursively). non-trivial = family of >= 2 candidates of which at least one matches.",
+    "bounds": {"quick": "K=4", "thorough": "K=5"},
+    "min_counters": {"quick": {"nontrivial": 20000, "resolve.families_arity2": 10000}},
+    "assumptions": COMMON_ASSUMPTIONS + ["Scalar parameters, defaults, requires_ predicates, bundle inheritance and REF patterns are not explored."],
+    "level_text": "Complete enumeration of the bounded family x order x argument space against a reference unifier.",
+    "level_note": "Trusted: the reference unifier and documented-order predicate in harness/c19_resolve.cpp; operator_rank() is used only for the tie / uniqueness clause.",
+}
+
 NOT_APPLICABLE = {}
